@@ -295,7 +295,20 @@ func steerProxyTimeout(res *vlib.Result, ctxID int, order string) {
 		tr.run("client-poll", "", func() string { r := b.client(cl); return r.Answer + r.Error })
 	}
 	// every timer that can release a request: 10 s poll timeout + 10 s client timeout
-	if !tr.waitAll(35 * time.Second) {
+	all := tr.waitAll(35 * time.Second)
+	if steerForC03 {
+		// C03's use of the scenario: whatever happened in the window, the broker must
+		// still know who is waiting afterwards
+		if all {
+			availabilityProbe(res, name, b, rec)
+		} else {
+			res.Inconcl(name + ": a request was still open (bounded completion is C04's concern)")
+		}
+		res.Eval(1)
+		res.Distinct(name)
+		return
+	}
+	if !all {
 		judgeOpen(res, name, tr, rec)
 	}
 	rec["requests"] = tr.snapshot()
@@ -304,6 +317,50 @@ func steerProxyTimeout(res *vlib.Result, ctxID int, order string) {
 	res.Distinct(name)
 	res.Obs("steered_scenarios", 1)
 	res.Sample(4, rec)
+}
+
+// steerForC03 makes the steered scenarios end with C03's availability probe
+// instead of C04's judgements (set by TestVerifC03AfterWindows only).
+var steerForC03 bool
+
+// availabilityProbe: after a scenario has ended, exactly one proxy registers in
+// each pool in turn and one eligible client arrives while it waits: the client
+// must not be refused and the proxy must receive its offer (a broker whose idea
+// of who is waiting has drifted - a count one too low, a heap entry lost -
+// refuses it or hands the offer to nobody).
+func availabilityProbe(res *vlib.Result, scenario string, b *vBroker, rec map[string]interface{}) {
+	const none = "no snowflake proxies currently available"
+	for _, pool := range []string{NATUnrestricted, NATRestricted} {
+		clientNAT := NATRestricted
+		if pool == NATRestricted {
+			clientNAT = NATUnrestricted
+		}
+		sid := fmt.Sprintf("probe-%s-%d-%s", pool, b.id, strings.Replace(scenario, "/", "-", -1))
+		offer := "PROBE-OFFER-" + sid
+		pdone := make(chan pollResult, 1)
+		go func() {
+			pr := b.poll(&pollSpec{Sid: sid, Type: "standalone", NAT: pool})
+			if pr.Offer != "" {
+				b.answer(sid, "PROBE-ANSWER-"+sid)
+			}
+			pdone <- pr
+		}()
+		if !waitUntil(5*time.Second, func() bool { return b.debugAvailable() == 1 }) {
+			res.Inconcl(scenario + ": the probe proxy did not register (or others are still registered)")
+			<-pdone
+			return
+		}
+		cr := b.client(&clientSpec{Transport: "post", NAT: clientNAT, Offer: offer})
+		pr := <-pdone
+		res.Obs("availability_probes", 1)
+		if cr.Error == none || pr.Offer != offer {
+			rec["probe_pool"] = pool
+			rec["probe_client_result"] = cr
+			rec["probe_poll_result"] = pr
+			res.Violate("c03:denied-although-eligible-proxy-waiting:after-"+strings.SplitN(scenario, "/", 2)[0], fmt.Sprintf("%s: afterwards one %s proxy registered (/debug showed 1 available) and a %s client arrived: client got %+v, the proxy's poll ended with offer %q", scenario, pool, clientNAT, cr, pr.Offer), rec)
+			return
+		}
+	}
 }
 
 // window 2: the client's wait for the answer times out; where does the answer fall?
@@ -377,7 +434,18 @@ func steerClientTimeout(res *vlib.Result, ctxID int, order string) {
 		waitUntil(5*time.Second, func() bool { _, _, ids := b.internals(); return ids == 0 })
 		post()
 	}
-	if !tr.waitAll(35 * time.Second) {
+	all2 := tr.waitAll(35 * time.Second)
+	if steerForC03 {
+		if all2 {
+			availabilityProbe(res, name, b, rec)
+		} else {
+			res.Inconcl(name + ": a request was still open (bounded completion is C04's concern)")
+		}
+		res.Eval(1)
+		res.Distinct(name)
+		return
+	}
+	if !all2 {
 		judgeOpen(res, name, tr, rec)
 	}
 	rec["requests"] = tr.snapshot()
@@ -761,4 +829,28 @@ func TestVerifC04Herd(t *testing.T) {
 	res.Note("hook_hits", verifhook.AllHits())
 	res.RequireObs("herd_window_hits_proxy_timeout_vs_pop", 1)
 	res.RequireObs("herd_window_hits_answer_vs_client_timeout", 1)
+}
+
+// C03 after the two 10 s windows: the hook-steered scenarios of C04 (client pop
+// before / inside / after the proxy-poll timeout window; answer before / inside
+// / after the client-timeout window), each followed by the availability probe.
+func TestVerifC03AfterWindows(t *testing.T) {
+	res := vlib.NewResult("C03", "inpkg-broker-c03-after-windows", "the hook-steered window scenarios (proxy-poll timeout vs client pop, client timeout vs answer; opposing event before / inside / after the window), each followed by an availability probe per pool: one proxy registers, /debug shows 1, one eligible client arrives - it must not be refused and the proxy must receive its offer; non-trivial = scenario executed to the probe, distinct by (window, order)")
+	defer res.Finish()
+	steerForC03 = true
+	c04hooks.install(hProxyTimeout, hClientPopped, hClientTimeout, hAnswerSend)
+	reps := vlib.Scale(2, 8)
+	var wg sync.WaitGroup
+	id := 0
+	for rep := 0; rep < reps; rep++ {
+		for _, order := range []string{"before", "inside", "after"} {
+			id++
+			wg.Add(2)
+			go func(id int, order string) { defer wg.Done(); steerProxyTimeout(res, 51000+id, order) }(id, order)
+			go func(id int, order string) { defer wg.Done(); steerClientTimeout(res, 52000+id, order) }(id, order)
+		}
+	}
+	wg.Wait()
+	res.RequireObs("availability_probes", int64(reps*6))
+	res.RequireObs("steered_window_hits_proxy_timeout", int64(reps))
 }
